@@ -514,6 +514,24 @@ where
     let total_num_helper_cols: usize = num_ctl_columns.iter().sum();
 
     let quotient_degree_bits = log2_ceil(stark.quotient_degree_factor());
+    // The quotient domain is walked in batches of `P::WIDTH` points: a domain smaller than one
+    // batch (a very short trace in a SIMD build) is handled with unpacked field elements instead.
+    if (degree << quotient_degree_bits) < P::WIDTH {
+        return compute_quotient_polys::<F, F, C, S, D>(
+            stark,
+            trace_commitment,
+            auxiliary_polys_commitment,
+            lookup_challenges,
+            lookups,
+            ctl_data,
+            public_inputs,
+            alphas,
+            degree_bits,
+            num_lookup_columns,
+            num_ctl_columns,
+            config,
+        );
+    }
     assert!(
         quotient_degree_bits <= rate_bits,
         "Having constraints of degree higher than the rate is not supported yet."
